@@ -114,22 +114,39 @@ def theorem_names(prop):
     return [f'{ns}.{n}' if ns else n for n in names]
 
 
-def scan_forbidden():
-    bad = []
-    for base, _, files in os.walk(LEAN):
-        if '.lake' in base:
+def import_closure(roots):
+    """project-local modules (files under lean/) reachable through `import` lines from the given module names"""
+    seen, todo = set(), list(roots)
+    while todo:
+        m = todo.pop()
+        if m in seen:
             continue
-        for fn in files:
-            if not fn.endswith('.lean'):
-                continue
-            p = os.path.join(base, fn)
-            src = open(p).read()
-            src = re.sub(r'/-.*?-/', lambda m: '\n' * m.group(0).count('\n'), src, flags=re.S)
-            for i, line in enumerate(src.split('\n'), 1):
-                line = re.sub(r'--.*', '', line)
-                line = re.sub(r'"(?:[^"\\]|\\.)*"', '""', line)
-                if FORBIDDEN.search(line):
-                    bad.append(f'{os.path.relpath(p, LEAN)}:{i}: {line.strip()}')
+        path = os.path.join(LEAN, *m.split('.')) + '.lean'
+        if not os.path.exists(path):
+            continue
+        seen.add(m)
+        for ln in open(path):
+            mm = re.match(r'\s*(?:public\s+)?import\s+(\S+)', ln)
+            if mm:
+                todo.append(mm.group(1))
+    return sorted(seen)
+
+
+def scan_forbidden(prop=None):
+    """forbidden constructs in the Lean sources the property's theorems and driver depend on (all of lean/ if prop is None)"""
+    bad = []
+    if prop is None:
+        files = [os.path.join(b, fn) for b, _, fs in os.walk(LEAN) if '.lake' not in b for fn in fs if fn.endswith('.lean')]
+    else:
+        files = [os.path.join(LEAN, *m.split('.')) + '.lean' for m in import_closure([f'PytezosModel.Props.{prop}', f'Driver.{prop}'])]
+    for p in files:
+        src = open(p).read()
+        src = re.sub(r'/-.*?-/', lambda m: '\n' * m.group(0).count('\n'), src, flags=re.S)
+        for i, line in enumerate(src.split('\n'), 1):
+            line = re.sub(r'--.*', '', line)
+            line = re.sub(r'"(?:[^"\\]|\\.)*"', '""', line)
+            if FORBIDDEN.search(line):
+                bad.append(f'{os.path.relpath(p, LEAN)}:{i}: {line.strip()}')
     return bad
 
 
@@ -195,7 +212,7 @@ class Ctx:
                 else:
                     extra = seen[t] - ALLOWED_AXIOMS
                     self.obligation(f'theorem:{t}', not extra, f'axioms={sorted(seen[t])}')
-        bad = scan_forbidden()
+        bad = scan_forbidden(prop)
         self.obligation('source-scan:no sorry/axiom/native_decide', not bad, '; '.join(bad[:5]))
         if self.tier == 'thorough' and rc_p == 0 and os.environ.get('VERIF_LEANCHECKER', '1') == '1':
             rc, out = _sh(['lake', 'env', 'leanchecker', f'PytezosModel.Props.{prop}'], cwd=LEAN, timeout=3000)
